@@ -62,6 +62,7 @@ THEOREMS = [
     # f-strings one level deep (round of 2026-09-30, third part)
     "PV.C13.fstr_pieces_ordered",
     "PV.C13.strings_single_fstr_jOrd",
+    "PV.C13.strings_fstr_weak",
     "PV.C13.ow_joined",
     "PV.C13.single_fstr_token_walkable",
     "PV.C13.nw_joined",
@@ -150,7 +151,16 @@ PARTIAL = [
     "which is more than the two listed f-string findings that live there (fstring_findings_reproduced; "
     "offsOk_of_spansOk_needs_plain: with an f-string an offset need not be a token boundary); for trees with f-strings "
     "SrcOrdered is still evaluated per tree (`*-fold` / `*-pfold` streams, evidence coverage.src_ordered_on_real_trees and "
-    "coverage.ordM_on_model_parsed_trees)",
+    "coverage.ordM_on_model_parsed_trees). f-strings ONE LEVEL DEEP (round 3): proved are the f-string step of the parser "
+    "model for ONE token that is not part of an implicit concatenation (fstr_pieces_ordered, strings_single_fstr_jOrd: its "
+    "JoinedStr is laid out as fold_expr_joined_str visits it; single_fstr_token_walkable: and the fold model walks it) and the "
+    "whole TREE half (F.srcOrdered_of_ordM, fordM_locations_eq_spec, fordM_linear_eq_random: for every ranged tree with "
+    "F.ordM, f-strings at any expression position); NOT proved is that the parser model's trees in the decidable domain "
+    "fplainOrd (fplainM1, no f-string token inside an implicit concatenation) under C02's tie FTiedP are F.ordM "
+    "(parsed_ordM_fstr_full, stated): the two parser inductions have to be re-run over C02's tied induction F.soundAt / "
+    "F.compSAt (design/C13.md says how); evaluated instead: 651 of 651 corpus programs in the domain are F.ordM. The listed "
+    "findings stay outside: fstr_concat_not_fordM (concatenation: outside fplainOrd, F.ordM false), fstr_crlf_not_tied "
+    "(CR LF inside the literal: FTiedP false)",
     "OffsOk (every offset of the OUTPUT tree on a character boundary, not between a CR and its LF, not inside a leading BOM) is "
     "no longer a hypothesis: offsOk_of_spansOk derives it from SpansOk, the same three facts about the starts and ends of the "
     "INPUT tokens (parsed_offsets_token_ends: every offset of a plain parser-built tree is a token start or end), except for "
